@@ -268,7 +268,7 @@ Definition store0 : store := {| cells := []; names := []; next := 0 |}.
 Record cfg := { c_def_copy : bool;      (* x := y copies y's value into fresh cells *)
                 c_atom_copy : bool;     (* (y, 1) / {f: y} copy y's value *)
                 c_destr_fixed : bool;   (* destructure: all targets checked first, immutable, copied *)
-                c_col_checked : bool }. (* table column assignment compares lengths first *)
+                c_col_checked : bool }. (* table column assignment refuses a source longer than the table *)
 Definition cfg_cur : cfg := {| c_def_copy := false; c_atom_copy := false; c_destr_fixed := false; c_col_checked := false |}.
 
 Fixpoint findn {A} (c : nat) (l : list (nat * A)) : option A :=
@@ -536,8 +536,7 @@ Definition k_field (cf : cfg) (cs : list (nat * dv)) (sink : value) (f : string)
           | Some old, DMat r c d =>
               if Nat.eqb (mform r c) 2 then
                 let n := List.length old in
-                if c_col_checked cf then
-                  (if Nat.eqb r n then KOk a (write a (DTab (set_col f d cols)) cs) else KErr)
+                if andb (c_col_checked cf) (negb (Nat.leb r n)) then KErr
                 else if Nat.leb r n then KOk a (write a (DTab (set_col f (d ++ skipn r old) cols)) cs)
                 else KPartial a (write a (DTab (set_col f (firstn n d) cols)) cs)
               else KErr
@@ -931,7 +930,8 @@ Definition find_cfg (h : list stmt) (os : list ostep) : option cfg :=
 Definition judge_hist (h : list stmt) (os : list ostep) : sx :=
   if negb (Nat.eqb (List.length h) (List.length os)) then v_bad "step-count" (Lx [])
   else if trace_okb [] (obs_trace h os) then
-    v_ok (if syncb cfg_cur store0 h os then (if aliasb cfg_cur store0 h os then "exact" else "values") else "unpredicted")
+    v_ok (if existsb (fun cf => andb (syncb cf store0 h os) (aliasb cf store0 h os)) all_cfgs then "exact"
+          else if existsb (fun cf => syncb cf store0 h os) all_cfgs then "values" else "unpredicted")
   else
     match find_cfg h os with
     | Some cf =>
